@@ -119,6 +119,46 @@ theorem c13_slashing_frame (votes : List Vote) (s s' : App) (h : slashingBegin v
   let ⟨a, _, c, d, e, _, _⟩ := slashingBegin_same votes s s' h
   ⟨a, c, d, e⟩
 
+/-! ### double-sign evidence (x/evidence's BeginBlocker, between x/slashing's and PoA's) -/
+
+/-- accepted evidence against a known, not yet tombstoned validator that is not Unbonded leaves it tombstoned and
+    jailed until the end of time -/
+theorem c13_evidence_tombstones (s s' : App) (e : Evid) (v : Val) (info : SignInfo)
+    (hv : s.valByKey e.key = some v) (hst : v.status ≠ .unbonded) (hi : s.getInfo e.key = some info) (ht : info.tomb = false)
+    (h : s.handleEvidence e = .ok s') :
+    ∃ i', s'.getInfo e.key = some i' ∧ i'.tomb = true ∧ i'.jailedUntil = tFar := by
+  unfold handleEvidence at h
+  have hst' : (v.status == Status.unbonded) = false := by
+    cases hs : v.status <;> simp_all
+  simp only [hv, hst', Bool.false_eq_true, ↓reduceIte, hi, ht] at h
+  split at h
+  · cases h
+  · split at h
+    · cases h
+    · split at h
+      · cases h
+      · rename_i i hi2
+        injection h with h
+        subst h
+        refine ⟨{ i with jailedUntil := tFar, tomb := true }, ?_, rfl, rfl⟩
+        simp [getInfo, setInfo, alookup_ainsert_self]
+
+/-- a tombstoned validator can never unjail: `MsgUnjail` is refused whatever the time, the tokens or the admin did -/
+theorem c13_tombstoned_stays_jailed (s : App) (v : Val) (d : Int) (i : SignInfo)
+    (hi : s.getInfo v.key = some i) (ht : i.tomb = true) :
+    ∀ s', s.unjailCheck v d ≠ .ok s' := by
+  intro s' h
+  unfold unjailCheck at h
+  split at h
+  · cases h
+  · dsimp only at h
+    split at h
+    · cases h
+    · split at h
+      · cases h
+      · simp only [hi, ht, ↓reduceIte] at h
+        cases h
+
 /-- **C13, a jailed validator is not in CometBFT's next set — whatever the block's transactions did** (partial: the
     state enters the EndBlocker inside `Pre`): for every `Pre` state and every validator record with the jailed flag -/
 theorem c13_jailed_out_partial (s s' : App) (c c' : CSet) (ups : List (Nat × Int)) (hpre : Pre s c = true)
